@@ -18,5 +18,6 @@ FINDINGS = [
          example="{'alpha': {'typ': 'dict', 'doc': 'the value'}} in any variant"),
 ]
 FIXED = [
+    "fixed: property=C05 d87d6c0 a column typed Literal['a'] (exactly one member) was emitted as Column(Literal['a'], LargeBinary, ...) in all three variants; parsed back it had no type (and with an FK marker the parser raised)",
     "fixed: property=C05 0ef38b5 every emitted hybrid class failed to parse (AssertionError: 'Cfg' != '__table__'), so the hybrid variant never round-tripped or agreed with the other two",
 ]
